@@ -84,6 +84,9 @@ class ScriptAgent(Agent):
             self.set_property("x", {"type": "Double", "value": 0.5 * self.id - 1.0})
         if "n" not in self.properties:
             self.set_property("n", {"type": "Integer", "value": (self.id * 7) % 5 - 2})
+        if self.id % 2 == 1 and "y" not in self.properties:
+            # a numeric property that only SOME agents of a type carry (never the first one created)
+            self.set_property("y", {"type": "Double", "value": 0.25 * self.id})
         if "label" not in self.properties:
             self.set_property("label", {"type": "String", "value": "agent%d" % self.id})
 
